@@ -17,7 +17,9 @@ LEVEL_TEXT = ('Proof + real runs in a mount namespace: Lean theorems over the mo
 LEVEL_NOTE = 'Trusted: Lean kernel; the abstraction of walkdir; the staged-tree and namespace runs for the tie. Symlinks below the admin directory are outside the model.'
 TECHNIQUE = 'Lean 4 proofs (soundness and completeness of the directory filters) + real filter correspondence + runs of the binary as several uids in a mount namespace'
 
-NAMES = ['1001', '2002', 'shared', '0', '007', 'a1', '3003x', 'sub', 'deep']
+NAMES = ['1001', '2002', 'shared', '0', '007', 'a1', '3003x', 'sub', 'deep',
+         # numbers by spelling, whatever their magnitude: beyond u32 / u64, a timestamp, leading zeros; and near-numbers
+         '4294967296', '20240131093000', '18446744073709551616', '0001001', '١٢٣', ' 7', '+7', '-1', '1e3', '0x10']
 ADMIN = '/etc/containers/systemd'
 
 
@@ -43,7 +45,9 @@ def may_read_user(uid, rel):
     if len(parts) == 1:
         return True
     first = parts[1]
-    return (not first.isdigit()) or first == str(uid)
+    # a number = a non-empty string of ASCII decimal digits (what a UID directory is called), of any magnitude
+    numeric = first != '' and all(c in '0123456789' for c in first)
+    return (not numeric) or first == str(uid)
 
 
 def correspond(ctx):
